@@ -49,7 +49,7 @@ META = dict(
     need=["adjointness_comparisons", "linearity_checks", "documented_action_comparisons",
           "inverse_product_checks", "input_unchanged_checks", "target_domain_checks",
           "registry_crosscheck"],
-    quick=dict(cases=960, workers=8, budget_s=80),
+    quick=dict(cases=960, workers=8, budget_s=90),
     thorough=dict(cases=16000, workers=16, budget_s=700),
     design_ref="DESIGN.md §5 C02",
     level_text=("every registered operator class is constructed in generated configurations and "
